@@ -1,7 +1,7 @@
 PROP = dict(
     id="C16",
     lean_modules=["TongoProofs.C16"],
-    gen=["LevelMask", "CellDesc", "BocHeader", "MinBits", "TlbTypes", "IntTypes"],
+    gen=["LevelMask", "TlbTypes", "IntTypes"],
     spec_ops=("msg.hash", "tx.hash", "tx.seq", "msg.seq"),
     rule="synthetic messages: the three info kinds in turn; src/dest over none/extern/std/var (incl. off-schema kinds the "
          "decoder accepts), anycast on a third of the addresses; init absent / inline (all optional parts) / in a "
